@@ -13,7 +13,7 @@ import (
 
 func genC02(rt *rapid.T) Scenario {
 	return genScenario(rt, Profile{MinTargets: 1, MaxTargets: 3, MinSets: 2, MaxSets: 8, MultiTarget: true, Poison: true, Refuse: true, Offline: true, Rollbacks: true,
-		Crashes: 1, Preempt: 2, Drawn: true, Serializable: true, Pace: true})
+		Crashes: 1, Preempt: 2, Drawn: true, Serializable: true, Pace: true, ParkWrites: true})
 }
 
 // checkSendOrder looks at every southbound request together with the step
